@@ -44,6 +44,29 @@ pub struct GraphCase {
     pub sample: Option<Vec<usize>>,
 }
 
+/// queries that the reused search objects answer on ANOTHER graph before the case's own queries
+#[derive(Clone, Default)]
+pub struct PreHistory {
+    pub n: usize,
+    pub edges: Vec<(usize, usize, usize)>,
+    pub queries: Vec<Query>,
+}
+
+impl PreHistory {
+    pub fn add_to(&self, c: &mut Case) {
+        c.op(format!("PG {}", self.n));
+        for chunk in self.edges.chunks(400) {
+            c.op(format!("PE {}", join(chunk.iter().map(|e| format!("{}:{}:{}", e.0, e.1, e.2)), " ")));
+        }
+        for q in &self.queries {
+            match q {
+                Query::Uni(s, t) => c.op(format!("PQ uni {s} {t}")),
+                Query::O2m(s, ts) => c.op(format!("PQ o2m {s} {}", join(ts.iter(), " ")).trim_end().to_string()),
+            };
+        }
+    }
+}
+
 impl GraphCase {
     pub fn to_case(&self, family: &str) -> Case {
         let mut c = Case::new(family);
@@ -599,6 +622,76 @@ pub fn generate_mode(rng: &mut Rng, tier: Tier, cases: &mut Vec<Case>, mode: Mod
     for i in 0..n_cells {
         cases.push(random_cell(rng, i % 4 == 1 || i % 4 == 3, i % 4 >= 2));
     }
+    // ---- the same search objects first work on ANOTHER graph (same node ids, other weights / other edges), often
+    //      from the same source as the case's first queries: nothing of that earlier graph may survive
+    let n_other = match tier {
+        Tier::Quick => 600,
+        Tier::Thorough => 12000,
+    };
+    for _ in 0..n_other {
+        let g = random_graph(rng, 12);
+        let mut h = random_graph(rng, 12);
+        // pre-graph over the same ids: same edges with other weights, or an unrelated graph
+        let pre_edges: Vec<(usize, usize, usize)> = if rng.chance(1, 2) {
+            g.edges.iter().map(|e| (e.0, e.1, e.2 / 2 + rng.below(4) as usize)).collect()
+        } else {
+            h.edges.retain(|e| e.0 < g.n && e.1 < g.n);
+            h.edges.clone()
+        };
+        let mut pre_edges = pre_edges;
+        if pre_edges.is_empty() {
+            pre_edges.push((0, 0, 1));
+        }
+        // every node of the case's graph must exist in the pre-graph's id space
+        let pn = g.n;
+        pre_edges.push((pn - 1, pn - 1, 0));
+        // pre-queries: the sources of the case's queries (so that "same source again" occurs), random targets
+        let mut pq = Vec::new();
+        for q in &g.queries {
+            let s = match q {
+                Query::Uni(s, _) => *s,
+                Query::O2m(s, _) => *s,
+            };
+            if rng.chance(2, 3) {
+                pq.push(Query::Uni(s, rng.below(pn as u64) as usize));
+            } else {
+                let mut ts: Vec<usize> = (0..pn).filter(|_| rng.chance(1, 2)).collect();
+                rng.shuffle(&mut ts);
+                pq.push(Query::O2m(s, ts));
+            }
+        }
+        // StaticGraph::new has max-id+1 nodes: the self-loop above makes that pn
+        let pre = PreHistory { n: pn, edges: pre_edges, queries: pq };
+        let mut c = g.to_case("other-graph-first");
+        pre.add_to(&mut c);
+        cases.push(c);
+    }
+    // ---- one-to-many with hundreds of targets (all nodes / every second node; increasing, decreasing, shuffled)
+    let n_many = match tier {
+        Tier::Quick => 12,
+        Tier::Thorough => 120,
+    };
+    for i in 0..n_many {
+        let n = 150 + rng.below(350) as usize;
+        let mut edges = Vec::new();
+        for u in 0..n {
+            edges.push((u, (u + 1) % n, 1 + rng.below(9) as usize));
+            if rng.chance(1, 3) {
+                edges.push((u, rng.below(n as u64) as usize, 1 + rng.below(30) as usize));
+            }
+        }
+        let mut ts: Vec<usize> = (0..n).filter(|v| i % 2 == 0 || v % 2 == 1).collect();
+        match i % 3 {
+            0 => ts.reverse(),
+            1 => rng.shuffle(&mut ts),
+            _ => {}
+        }
+        let s = rng.below(n as u64) as usize;
+        let ts: Vec<usize> = ts.into_iter().filter(|t| *t != s || i % 4 == 0).collect();
+        let sample: Vec<usize> = (0..n).step_by(37).collect();
+        let g = GraphCase { n, rep: *rng.pick(&REPS), edges, queries: vec![Query::O2m(s, ts.clone()), Query::Uni(s, ts[0]), Query::O2m(s, ts)], sample: Some(sample) };
+        cases.push(g.to_case("many-targets"));
+    }
     // ---- large graphs, reuse after a search that recorded thousands of nodes
     match tier {
         Tier::Quick => {
@@ -635,7 +728,7 @@ fn path_str(p: Option<Vec<usize>>) -> String {
     }
 }
 
-fn run_queries<G: Graph<usize>>(g: &G, n: usize, queries: &[Query], sample: &Option<Vec<usize>>, mode: Mode, obs: &mut Vec<String>) {
+fn run_queries<G: Graph<usize>>(g: &G, n: usize, queries: &[Query], sample: &Option<Vec<usize>>, pre: &PreHistory, mode: Mode, obs: &mut Vec<String>) {
     // adjacency as the searches will see it (free: edge order inside a node's range); not for large graphs
     let nn = g.number_of_nodes();
     if sample.is_none() {
@@ -654,6 +747,19 @@ fn run_queries<G: Graph<usize>>(g: &G, n: usize, queries: &[Query], sample: &Opt
     };
     let mut uni = UnidirectionalDijkstra::new();
     let mut o2m = OneToManyDijkstra::new();
+    if !pre.queries.is_empty() {
+        let pg = StaticGraph::new(pre.edges.iter().map(|e| InputEdge::new(e.0, e.1, e.2)).collect::<Vec<InputEdge<usize>>>());
+        for q in &pre.queries {
+            match q {
+                Query::Uni(s, t) => {
+                    uni.run(&pg, *s, *t);
+                }
+                Query::O2m(s, ts) => {
+                    o2m.run(&pg, *s, ts);
+                }
+            }
+        }
+    }
     for (k, q) in queries.iter().enumerate() {
         match q {
             Query::Uni(s, t) => {
@@ -701,10 +807,22 @@ pub fn execute_mode(c: &Case, obs: &mut Vec<String>, mode: Mode) {
     let mut is_cell = false;
     let mut sample: Option<Vec<usize>> = None;
     let (mut inc, mut out): (Vec<usize>, Vec<usize>) = (Vec::new(), Vec::new());
+    let mut pre = PreHistory::default();
     for l in &c.ops {
         let t: Vec<&str> = l.split_whitespace().collect();
         let num = |i: usize| t[i].parse::<usize>().unwrap();
         match t[0] {
+            "PG" => pre.n = num(1),
+            "PE" => {
+                for it in &t[1..] {
+                    let p: Vec<usize> = it.split(':').map(|x| x.parse().unwrap()).collect();
+                    pre.edges.push((p[0], p[1], p[2]));
+                }
+            }
+            "PQ" => match t[1] {
+                "uni" => pre.queries.push(Query::Uni(num(2), num(3))),
+                _ => pre.queries.push(Query::O2m(num(2), (3..t.len()).map(num).collect())),
+            },
             "G" => {
                 n = num(1);
                 rep = t[2].to_string();
@@ -746,18 +864,18 @@ pub fn execute_mode(c: &Case, obs: &mut Vec<String>, mode: Mode) {
     match rep.as_str() {
         "static" => {
             let g = StaticGraph::new(input);
-            run_queries(&g, n, &queries, &sample, mode, obs);
+            run_queries(&g, n, &queries, &sample, &pre, mode, obs);
         }
         "dyn" => {
             let g = DynamicGraph::new(n, input);
-            run_queries(&g, n, &queries, &sample, mode, obs);
+            run_queries(&g, n, &queries, &sample, &pre, mode, obs);
         }
         _ => {
             let mut g: DynamicGraph<usize> = DynamicGraph::new(n, Vec::<InputEdge<usize>>::new());
             for e in &edges {
                 g.insert_edge(e.0, e.1, e.2);
             }
-            run_queries(&g, n, &queries, &sample, mode, obs);
+            run_queries(&g, n, &queries, &sample, &pre, mode, obs);
         }
     }
 }
